@@ -204,15 +204,21 @@ def vregClass : Ty → Reg
   | .f32 => .xmmS 0
   | .f64 => .xmmD 0
 
-/-- indices (and types) of the arguments whose location is a `StackLocation`, in order: `mem_args` -/
-def memArgs (sig : List Ty) : List (Nat × Ty) :=
-  ((List.range sig.length).zip (sig.zip (determineArgLocations sig))).filterMap
-    (fun (i, t, l) => match l with | .stack _ _ => some (i, t) | .reg _ => none)
+/-- the loop `for arg_loc, arg2 in zip(arg_locs, args)`: arguments whose location is a
+    `StackLocation`, in order, with their index (`mem_args`) -/
+def memArgsFrom : Nat → List Ty → List Loc → List (Nat × Ty)
+  | i, t :: ts, .stack _ _ :: ls => (i, t) :: memArgsFrom (i + 1) ts ls
+  | i, _ :: ts, .reg _ :: ls => memArgsFrom (i + 1) ts ls
+  | _, _, _ => []
 
-/-- `reg_args` -/
-def regArgs (sig : List Ty) : List (Nat × Ty × Reg) :=
-  ((List.range sig.length).zip (sig.zip (determineArgLocations sig))).filterMap
-    (fun (i, t, l) => match l with | .reg r => some (i, t, r) | .stack _ _ => none)
+/-- … and those whose location is a register (`reg_args`) -/
+def regArgsFrom : Nat → List Ty → List Loc → List (Nat × Ty × Reg)
+  | i, t :: ts, .reg r :: ls => (i, t, r) :: regArgsFrom (i + 1) ts ls
+  | i, _ :: ts, .stack _ _ :: ls => regArgsFrom (i + 1) ts ls
+  | _, _, _ => []
+
+def memArgs (sig : List Ty) : List (Nat × Ty) := memArgsFrom 0 sig (determineArgLocations sig)
+def regArgs (sig : List Ty) : List (Nat × Ty × Reg) := regArgsFrom 0 sig (determineArgLocations sig)
 
 /-- one iteration of "Push arguments in reverse order" -/
 def pushArg (i : Nat) (t : Ty) : Except Err (List Instr) :=
@@ -223,10 +229,11 @@ def pushArg (i : Nat) (t : Ty) : Except Err (List Instr) :=
 
 def pushArgs : List (Nat × Ty) → Except Err (List Instr)
   | [] => .ok []
-  | (i, t) :: rest => do
-    let a ← pushArg i t
-    let r ← pushArgs rest
-    pure (a ++ r)
+  | (i, t) :: rest =>
+    match pushArg i t, pushArgs rest with
+    | .ok a, .ok r => .ok (a ++ r)
+    | .error e, _ => .error e
+    | _, .error e => .error e
 
 /-- one iteration of "Move register args to proper location" -/
 def moveArg (i : Nat) (t : Ty) (loc : Reg) : List Instr :=
@@ -247,18 +254,23 @@ structure CallSeq where
 def callPad (nMem : Nat) : Nat := (8 * nMem) % 16
 def callStackSize (nMem : Nat) : Nat := 8 * nMem + callPad nMem
 
+/-- instructions after the call: fetch the result, release the argument area -/
+def callPost (rv : Option Ty) (total : Nat) : List Instr :=
+  (match rv with
+    | some t => [Instr.mov rvVreg (determineRvLocation t).parent]
+    | none => [])
+  ++ (if total ≠ 0 then [Instr.add total] else [])
+
 /-- `gen_call(frame, label, args, rv)`; `rv = none` for a procedure call -/
-def genCall (sig : List Ty) (rv : Option Ty) : Except Err CallSeq := do
+def genCall (sig : List Ty) (rv : Option Ty) : Except Err CallSeq :=
   let mem := memArgs sig
   let pad := callPad mem.length
-  let pushes ← pushArgs mem.reverse
-  let moves := (regArgs sig).flatMap (fun (i, t, l) => moveArg i t l)
-  let total := callStackSize mem.length
-  let post := (match rv with
-      | some t => [Instr.mov rvVreg (determineRvLocation t).parent]
-      | none => [])
-    ++ (if total ≠ 0 then [Instr.add total] else [])
-  pure ⟨(if pad ≠ 0 then [Instr.sub pad] else []) ++ pushes ++ moves, post, total⟩
+  match pushArgs mem.reverse with
+  | .error e => .error e
+  | .ok pushes =>
+    let moves := (regArgs sig).flatMap (fun (i, t, l) => moveArg i t l)
+    let total := callStackSize mem.length
+    .ok ⟨(if pad ≠ 0 then [Instr.sub pad] else []) ++ pushes ++ moves, callPost rv total, total⟩
 
 /-! ### gen_function_enter -/
 
@@ -284,10 +296,13 @@ def enterArg (i : Nat) (t : Ty) (loc : Loc) (so : Nat) : Except Err (List Instr 
 
 def enterLoop : Nat → Nat → List (Ty × Loc) → Except Err (List Instr)
   | _, _, [] => .ok []
-  | i, so, (t, l) :: rest => do
-    let (a, so') ← enterArg i t l so
-    let r ← enterLoop (i + 1) so' rest
-    pure (a ++ r)
+  | i, so, (t, l) :: rest =>
+    match enterArg i t l so with
+    | .error e => .error e
+    | .ok (a, so') =>
+      match enterLoop (i + 1) so' rest with
+      | .error e => .error e
+      | .ok r => .ok (a ++ r)
 
 /-- `gen_function_enter(args)` without the `RegisterUseDef` pseudo instruction -/
 def genFunctionEnter (sig : List Ty) : Except Err (List Instr) :=
